@@ -386,6 +386,8 @@ class Core(composites.Composite):
                     self.blocksByName[b.getName()] = b
             else:
                 runLog.info("No Spent Fuel Pool is found, can't track assemblies.")
+                # nothing holds on to the assembly, so it must not stay findable by name either
+                self._removeListFromAuxiliaries(a1)
         else:
             self._removeListFromAuxiliaries(a1)
 
